@@ -1,3 +1,4 @@
+import json
 import os
 from concurrent.futures import ThreadPoolExecutor
 
@@ -50,6 +51,9 @@ class C35(Prop):
                     "shared state or can block), tied by the raced-session cases; Check/C35.v explores the model's interleavings "
                     "with critical sections and goroutine-local statements fused into one move (the proofs are about the "
                     "unfused semantics)",
+                    "translator tools/gen/sessionpaths (syntactic: go/ast over internal/servers/moq/session.go; maps statements "
+                    "to micro-operations as listed at the top of its source; loops as zero or one iteration; methods that "
+                    "do not run per stream - initialize, run, runInner, the acceptors - are left out)",
                     "raced sessions: the driver's wait-until-parked (goroutine states in runtime.Stack), its scripted "
                     "conn / streams, its path manager; controlmessage.Read, subgroup.Read, json, moq.ToStream, url.ParseRequestURI "
                     "decode the generated bytes for the model (oracles; the codecs are C32's)",
@@ -82,7 +86,9 @@ class C35(Prop):
              "out of range, no unlock of an unlocked mutex, no guarded field touched without s.mutex, and the mutex holder is "
              "never parked; the neighbouring statement orders (duplicate-SETUP test before Lock, Unlock before the test, no "
              "lock, state test and write in two sections, off-by-one index guard) panic under a concrete schedule. Real "
-             "sessions are driven through such schedules on every run.",
+             "sessions are driven through such schedules on every run, and every syntactic path through the per-stream "
+             "methods of session.go (regenerated on every run) is type-checked against the discipline. One data race "
+             "was found this way and repaired (onPublishTrack read s.state after Unlock, fix c873608).",
         note="Everything behind third-party decoders (gortsplib, gortmplib, gosrt, pion, quic-go, gohlslib, net/http, gin) and "
              "the Go runtime is TESTED, not proved: a real Core in a child process receives hostile TCP/UDP traffic on every "
              "listener and must stay alive and keep answering. The property's literal claim (process never terminates) is "
@@ -91,6 +97,26 @@ class C35(Prop):
                   "a small-step interleaving semantics (lock / ownership discipline as a type system, soundness by induction "
                   "over the schedule); correspondence by vm_compute (raced sessions: reachability search in the model) + "
                   "crash-oracle testing of a child process")
+
+    def generate(self, ctx):
+        """tools/gen/sessionpaths: every syntactic path through the per-stream methods of moq.session as micro-operations
+        (coq/gen/C35_SessionPaths.v); Props/C35.v type-checks them against the lock discipline."""
+        out = os.path.join(vlib.COQ, "gen", "C35_SessionPaths.v")
+        notes = os.path.join(ctx.workdir, "c35_notes.json")
+        tmp = os.path.join(ctx.workdir, "C35_SessionPaths.v")
+        rc, o = vlib.sh(["go", "run", "./sessionpaths", vlib.REPO, tmp, notes],
+                        cwd=os.path.join(vlib.VERIF, "tools", "gen"), env=vlib.go_env(), timeout=300)
+        if os.path.exists(tmp):
+            new = open(tmp).read()
+            old = open(out).read() if os.path.exists(out) else None
+            if new != old:
+                with vlib.Lock("coqmake"):
+                    open(out, "w").write(new)
+        if rc != 0:
+            raise RuntimeError("translator failed: " + o[-2000:])
+        nt = json.load(open(notes))
+        return ["internal/servers/moq/session.go: %d paths through %d per-stream methods of *session (%s)" % (
+            nt["paths"], len(nt["functions"]), ", ".join("%s:%d" % (f["name"], f["paths"]) for f in nt["functions"]))]
 
     def n_cases(self, tier):
         return self.n_quick if tier == "quick" else self.n_thorough
